@@ -86,3 +86,74 @@ Definition c02_case (n cs workers : nat) (assign sched : list nat) (bs : Z)
          nlist_eqb ids (map fst impl);
          (* the schedule is a permutation of the message indices (harness sanity) *)
          (workers =? 0) || nlist_eqb (isort sched) (seq 0 (c02_nmsgs n cs workers)) ].
+
+(* ---------- which key splits a chunk: PatchMode.determine + split_into_patches ----------
+   A row as the reader yields it = the record and, when patch_name was given, the value of
+   the patch index column.  With centres (given, taken from another catalog, or generated for
+   patch_num) the nearest centre of the record decides and the index column, if there is one,
+   is popped and dropped; without centres the index column decides and is popped.  The order
+   of precedence is the documented one: patch_centers > patch_name > patch_num. *)
+From Coq Require Import Permutation.
+Section Mode.
+  Context {A : Type}.
+  Definition col_key (r : A * option nat) : nat := match snd r with Some k => k | None => 0 end.
+  Definition mode_key (near : option (A -> nat)) (r : A * option nat) : nat :=
+    match near with Some f => f (fst r) | None => col_key r end.
+  (* split_into_patches(chunk, patch_centers) *)
+  Definition split_rows (near : option (A -> nat)) (chunk : list (A * option nat)) : list (nat * list A) :=
+    match near with
+    | Some f => groupby f (map fst chunk)
+    | None => map (fun kv => (fst kv, map fst (snd kv))) (groupby col_key chunk)
+    end.
+  (* write_patches on a pool: one dictionary per (chunk, worker split); unthreaded: one per chunk *)
+  Definition messages_mode (near : option (A -> nat)) (cs workers : nat) (input : list (A * option nat))
+    : list (list (nat * list A)) :=
+    flat_map (fun c => map (split_rows near) (array_split workers c)) (chunks cs input).
+  Definition messages_mode_seq (near : option (A -> nat)) (cs : nat) (input : list (A * option nat))
+    : list (list (nat * list A)) :=
+    map (split_rows near) (chunks cs input).
+  (* one execution of a creation call: workers = 0 is the sequential path (one worker), otherwise
+     the dictionaries of the pool reach the writer in some order pi *)
+  Definition is_execution (near : option (A -> nat)) (cs workers : nat) (input : list (A * option nat))
+             (pi : list (list (nat * list A))) : Prop :=
+    match workers with
+    | 0 => pi = messages_mode_seq near cs input
+    | _ => Permutation pi (messages_mode near cs workers input)
+    end.
+End Mode.
+
+(* ---------- one input, several executions (C02 option / execution matrix) ----------
+   rows are row numbers; near = exact nearest centre of each row (used when centres are given),
+   pidcol = the patch index column (used when patch_name is given); each run = the worker count
+   (0 = sequential), the delivery order and the per-patch sorted row numbers that were stored *)
+Definition c02_rows (n : nat) (has_n : bool) (pidcol : list nat) : list (nat * option nat) :=
+  map (fun i => (i, if has_n then Some (nth i pidcol 0) else None)) (seq 0 n).
+Definition c02_near (has_c : bool) (near : list nat) : option (nat -> nat) :=
+  if has_c then Some (fun i => nth i near 0) else None.
+Definition c02_mode_assign (n : nat) (has_c has_n : bool) (near pidcol : list nat) : list nat :=
+  map (mode_key (c02_near has_c near)) (c02_rows n has_n pidcol).
+Definition c02_exec_msgs {A} (near : option (A -> nat)) (cs workers : nat) (sched : list nat)
+           (rows : list (A * option nat)) : list (list (nat * list A)) :=
+  if workers =? 0 then messages_mode_seq near cs rows
+  else let ms := messages_mode near cs workers rows in map (fun i => nth i ms []) sched.
+Definition c02_mode_model (n cs workers : nat) (has_c has_n : bool) (near pidcol sched : list nat)
+           (bs : Z) (p : nat) : list nat :=
+  isort (stored (run_writer bs (c02_exec_msgs (c02_near has_c near) cs workers sched (c02_rows n has_n pidcol))) p).
+Definition patches_eqb (a b : list (nat * list nat)) : bool :=
+  list_eqb (fun x y => (fst x =? fst y) && nlist_eqb (snd x) (snd y)) a b.
+
+Definition c02_matrix_case (n cs : nat) (has_c has_n : bool) (near pidcol : list nat) (bs : Z)
+           (runs : list ((nat * list nat) * list (nat * list nat))) : nat :=
+  let assign := c02_mode_assign n has_c has_n near pidcol in
+  code [ (* model = impl, for every execution, patch by patch *)
+         forallb (fun r => forallb (fun kv => nlist_eqb
+            (c02_mode_model n cs (fst (fst r)) has_c has_n near pidcol (snd (fst r)) bs (fst kv)) (snd kv))
+            (snd r)) runs;
+         (* spec = impl: the key that the documented precedence selects decides the patch *)
+         forallb (fun r => forallb (fun kv => nlist_eqb (c02_spec n assign (fst kv)) (snd kv)) (snd r)
+                           && nlist_eqb (sorted_keys assign) (map fst (snd r))) runs;
+         (* all executions stored the same per-patch sets *)
+         match runs with [] => true | r0 :: rs => forallb (fun r => patches_eqb (snd r) (snd r0)) rs end;
+         (* every schedule is a permutation of the message indices (harness sanity) *)
+         forallb (fun r => (fst (fst r) =? 0)
+                           || nlist_eqb (isort (snd (fst r))) (seq 0 (c02_nmsgs n cs (fst (fst r))))) runs ].
